@@ -50,7 +50,7 @@ fn fam(name: &str) -> i64 {
 }
 
 fn family_name(f: usize) -> &'static str {
-    ["Basic", "ReadOnly", "Shapes", "IntRes", "Consume", "Children", "ChildrenMore", "Debug", "Display", "AsRef", "IntResMixed", "Attrs", "Life", "GrpA", "GrpR", "GrpB", "GrpD", "GrpC"][f]
+    ["Basic", "ReadOnly", "Shapes", "IntRes", "Consume", "Children", "ChildrenMore", "Debug", "Display", "AsRef", "IntResMixed", "Attrs", "Life", "Dup", "GrpA", "GrpR", "GrpB", "GrpD", "GrpC"][f]
 }
 
 fn create_pair(st: &mut State, family: usize, mask: u32, cont: usize, ctxsel: usize) -> Option<Pair> {
@@ -557,7 +557,7 @@ impl Engine for ObjEngine {
             // only families whose methods are integer-coded (or deliberately not): a crash in this
             // focus is attributable to the int-result plumbing
             "intres" => vec!["IntRes", "IntRes", "IntResMixed", "IntResMixed", "ChildrenMore", "Debug", "Display"],
-            "ctx" => vec!["Children", "Children", "ChildrenMore", "GrpB", "GrpB", "GrpC", "Consume", "Basic", "GrpA", "GrpD"],
+            "ctx" => vec!["Children", "Children", "ChildrenMore", "GrpB", "GrpB", "GrpC", "Consume", "Basic", "GrpA", "GrpD", "Dup"],
             _ => (0..N_FAMILIES).map(family_name).collect(),
         };
         let fam_pool: Vec<i64> = names.iter().map(|n| fam(n)).collect();
